@@ -80,6 +80,61 @@ theorem path_iter_read (P : Path) (g : List Int) (h : path_get_ndata P P.names.i
   rw [path_iter_eq P g h, Option.bind_some]
   exact handles_read P key gk hk g.length (by rw [path_get_ndata_length P key gk hk, path_get_ndata_length P _ g h])
 
+/-! ## `Tree.__iter__` -/
+
+theorem tree_iter_loop (T : DictSWC) (idc : List Int) (h : Py.Dict.get? T.ndata T.names.id = some idc) :
+    ∀ (xs : List Int) (v : tree_iter.V), v.self = T → (∀ x ∈ xs, 0 ≤ x ∧ x < idc.length) →
+    ∃ v', Py.forEach tree_iter.for1 xs v = .next v' ∧ v'.self = T ∧ v'.c0_ = v.c0_ ++ xs.map (fun i => ⟨T, i, T.names⟩) := by
+  intro xs
+  induction xs with
+  | nil => intro v hv _; exact ⟨v, rfl, hv, by simp⟩
+  | cons x xs ih =>
+    intro v hv hx
+    subst hv
+    have hx0 := hx x List.mem_cons_self
+    obtain ⟨v', h1, h2, h3⟩ := ih { v with i := x, c0_ := v.c0_ ++ [⟨v.self, x, v.self.names⟩] } rfl
+      (fun y hy => hx y (List.mem_cons_of_mem _ hy))
+    refine ⟨v', ?_, h2, ?_⟩
+    · have h1' : ¬ (x < -(idc.length : Int) ∨ x ≥ idc.length) := by omega
+      have h2' : ¬ x < 0 := by omega
+      simp only [Py.forEach, tree_iter.for1, tree_getitem_int_eq v.self idc h, h1', if_false, normKey, h2', Py.bind]
+      exact h1
+    · simp [h3]
+
+/-- **`iter(tree)`** yields exactly the handles (tree, 0), …, (tree, n-1) = `tree[0]`, …, `tree[n-1]`, in this order -/
+theorem tree_iter_eq (T : DictSWC) (idc : List Int) (h : Py.Dict.get? T.ndata T.names.id = some idc) :
+    tree_iter T = some ((arangeL idc.length).map fun i => (⟨T, i, T.names⟩ : TNode)) := by
+  obtain ⟨v', e1, _, e3⟩ := tree_iter_loop T idc h (arangeL idc.length) ⟨T, (default : tree_iter.V).i, []⟩ rfl
+    (by intro x hx; simp [arangeL] at hx; obtain ⟨a, ha, rfl⟩ := hx; omega)
+  simp only [arangeL] at e1
+  simp [tree_iter, tree_iter.body, Py.seq, Py.bind, Py.bindS, swc_len_eq T idc h, Py.finish, e1, e3]
+
+/-- the handles (T, 0), …, (T, n-1) (whatever `names` they carry) read a column of length n as it stands in `T` -/
+theorem tree_handles_read (T : DictSWC) (nm : SWCNames) (key : String) (col : List Int) (hk : Py.Dict.get? T.ndata key = some col) :
+    ((arangeL col.length).map fun i => (⟨T, i, nm⟩ : TNode)).mapM (fun n => tnode_getitem n key) = some col := by
+  simp only [List.mapM_map, arangeL, Function.comp_def]
+  have : ∀ (l : List Int) (pre : List Int), pre ++ l = col →
+      ((List.range l.length).mapM fun (k : Nat) => tnode_getitem ⟨T, ((pre.length + k : Nat) : Int), nm⟩ key) = some l := by
+    intro l
+    induction l with
+    | nil => intro pre _; simp
+    | cons a l ih =>
+      intro pre e
+      have e2 := ih (pre ++ [a]) (by simpa using e)
+      rw [List.length_cons, List.range_succ_eq_map, List.mapM_cons]
+      have ha : tnode_getitem ⟨T, ((pre.length + 0 : Nat) : Int), nm⟩ key = some a := by
+        rw [tnode_getitem_eq, hk]
+        simp only [Option.bind_some]
+        rw [idx_inrange col _ (by subst e; simp)]
+        subst e; simp
+      rw [ha]
+      simp only [List.mapM_map]
+      have e3 : (List.range l.length).mapM (fun k => tnode_getitem ⟨T, ((pre.length + (k + 1) : Nat) : Int), nm⟩ key) = some l := by
+        rw [← e2]; congr 1; funext k; simp [Nat.add_assoc, Nat.add_comm 1 k]
+      push_cast at e3
+      simp [e3, Function.comp_def]
+  simpa using this col [] rfl
+
 /-! ## `Branch.detach` / `Compartment.detach` -/
 
 theorem branch_detach_loop (P : Path) : ∀ (ks : List String) (v : branch_detach.V), v.self = P → (∀ k ∈ ks, (path_get_ndata P k).isSome) →
